@@ -81,7 +81,10 @@ enum { OC_NONE = 0, OC_THROW = 1, OC_ACCEPT = 2 };
 // fn(i) returns "t" (exception), "a <content>" (accepted), or another outcome word (leak, alloc_cap ...).
 // Returns one outcome string per case; a sanitizer abort / crash / hang of case i becomes asan|ubsan|alloc_cap|crash|timeout
 // for that case and the remaining cases are run in a fresh child.
-static std::vector<std::string> run_isolated(size_t n, const std::function<std::string(size_t)>& fn) {
+// Once more than `abort_budget` cases have aborted, only the cases with keep(i) are still run (the others are reported
+// as "skipped"): an image whose reader aborts at nearly every length would otherwise cost one fork + report per length.
+static std::vector<std::string> run_isolated(size_t n, const std::function<std::string(size_t)>& fn,
+                                             int abort_budget = 1 << 30, const std::function<bool(size_t)>& keep = nullptr) {
   std::vector<std::string> out(n);
   if (n == 0) return out;
   Shared* sh = (Shared*)mmap(nullptr, sizeof(Shared), PROT_READ | PROT_WRITE, MAP_SHARED | MAP_ANONYMOUS, -1, 0);
@@ -98,8 +101,10 @@ static std::vector<std::string> run_isolated(size_t n, const std::function<std::
     if (pid == 0) {
       dup2(efd, 2);
       g_cap = (size_t)256 << 20;
+      try { throw std::out_of_range(std::string("warm-up ") + std::to_string(n)); } catch (const std::exception&) {}
       for (size_t i = start; i < n; ++i) {
         sh->cur = i;
+        if (restarts > abort_budget && keep && !keep(i)) { codes[i] = 6; sh->ndone = i + 1; continue; }
         std::string r = fn(i);
         if (r == "t") codes[i] = OC_THROW;
         else {
@@ -159,6 +164,7 @@ static std::vector<std::string> run_isolated(size_t n, const std::function<std::
     if (codes[i] == OC_THROW) out[i] = "t";
     else if (codes[i] == 3) out[i] = texts.count(i) ? texts[i] : "a ?";
     else if (codes[i] == 4) out[i] = "a ?";
+    else if (codes[i] == 6) out[i] = "skipped";
     else if (codes[i] == 0) out[i] = "notrun";
   }
   munmap(sh, sizeof(Shared)); munmap(codes, n);
@@ -383,7 +389,7 @@ template<typename Tr> struct Fam : Obj {
   typedef typename Tr::Cmp Cmp;
 
   std::string content() const override { return upd ? Tr::content(*upd) : Tr::content(*cmp); }
-  void update(const std::vector<std::string>& w, size_t i) override { if (!upd) throw std::runtime_error("not an update sketch"); Tr::update(*upd, w, i); }
+  void update(const std::vector<std::string>& w, size_t i) override { if (!upd) throw no_such_object(); Tr::update(*upd, w, i); }
   std::unique_ptr<Fam> derived(Cmp&& c, int lgk_) const {
     std::unique_ptr<Fam> o(new Fam); o->fam = fam; o->seed = seed; o->lgk = lgk_; o->nv = nv; o->cmp.reset(new Cmp(std::move(c))); return o;
   }
@@ -394,7 +400,7 @@ template<typename Tr> struct Fam : Obj {
     std::vector<const Cmp*> cs; std::vector<std::unique_ptr<Cmp>> tmp; int mx = 0;
     for (auto o : ops) {
       auto f = dynamic_cast<const Fam*>(o);
-      if (!f) throw std::runtime_error("operand family mismatch");
+      if (!f) throw no_such_object();
       if (f->cmp) cs.push_back(f->cmp.get()); else { tmp.emplace_back(new Cmp(Tr::compact(*f->upd, false))); cs.push_back(tmp.back().get()); }
       mx = std::max(mx, f->lgk);
     }
@@ -406,7 +412,7 @@ template<typename Tr> struct Fam : Obj {
 
   // ---- C09 / C10: one image with all implementation-side checks
   std::string ser(const std::string& kind, const Obj* other) const override {
-    if (!cmp) throw std::runtime_error("ser needs a compact sketch");
+    if (!cmp) throw no_such_object();
     const Cmp& c = *cmp;
     std::vector<std::string> fail;
     bytes_t img = Tr::ser_bytes(c, kind, 0);
@@ -523,25 +529,28 @@ template<typename Tr> struct Fam : Obj {
 
   // ---- C11: every strict prefix, every path
   std::string trunc(const std::string& kind) const override {
-    if (!cmp) throw std::runtime_error("trunc needs a compact sketch");
+    if (!cmp) throw no_such_object();
     bytes_t img = Tr::ser_bytes(*cmp, kind, 0);
     const int npaths = Tr::has_wrap ? 3 : 2;
     const size_t n = img.size();
     uint64_t sd = seed; int nvv = nv;
     // warm-up: lazy one-time allocations (locale facets etc.) must not look like leaks
-    for (int p = 0; p < npaths; ++p) { attempt(p, img.data(), n, sd, nvv, true); attempt(p, img.data(), 0, sd, nvv, true); }
-    auto oc = run_isolated(n * npaths, [&](size_t i) { return attempt((int)(i / n), img.data(), i % n, sd, nvv, true); });
+    for (int p = 0; p < npaths; ++p) attempt(p, img.data(), n, sd, nvv, true);   // only the VALID image runs outside the isolated children
+    auto oc = run_isolated(n * npaths, [&](size_t i) { return attempt((int)(i / n), img.data(), i % n, sd, nvv, true); },
+                           96, [&](size_t i) { size_t len = i % n; return len < 32 || len + 16 >= n || len % 16 == 0; });
+    size_t nskipped = 0; for (auto& o : oc) if (o == "skipped") { o = "t"; ++nskipped; }
     std::ostringstream os;
     os << "TRUNC " << kind << " " << seed << " " << vh::hex_of_bytes(img.data(), img.size()) << " | " << Tr::content(*cmp) << " |";
     static const char* pn[] = {"bytes", "stream", "wrap"};
     for (int p = 0; p < npaths; ++p)
       os << " " << pn[p] << ":" << n << ":" << events(oc, p * n, (p + 1) * n, [&](size_t i) { return std::to_string(i % n); }).substr(1) << " ;";
+    if (nskipped) os << " skipped:" << nskipped << ":none ;";
     return os.str();
   }
 
   // ---- C11: corruption of every preamble byte
   std::string corrupt(const std::string& kind) const override {
-    if (!cmp) throw std::runtime_error("corrupt needs a compact sketch");
+    if (!cmp) throw no_such_object();
     bytes_t img = Tr::ser_bytes(*cmp, kind, 0);
     const int npaths = Tr::has_wrap ? 3 : 2;
     size_t npre = preamble_bytes(kind, img);
@@ -557,7 +566,7 @@ template<typename Tr> struct Fam : Obj {
     }
     const size_t nc = cs.size();
     uint64_t sd = seed; int nvv = nv;
-    for (int p = 0; p < npaths; ++p) { attempt(p, img.data(), img.size(), sd, nvv, true); attempt(p, img.data(), 0, sd, nvv, true); }
+    for (int p = 0; p < npaths; ++p) attempt(p, img.data(), img.size(), sd, nvv, true);
     auto oc = run_isolated(nc * npaths, [&](size_t i) {
       bytes_t b(img); const C& c = cs[i % nc]; b[c.pos] = c.val;
       return attempt((int)(i / nc), b.data(), b.size(), sd, nvv, true);
@@ -577,6 +586,13 @@ template<typename Tr> struct Fam : Obj {
 };
 
 static std::map<int, std::unique_ptr<Obj>> objs;
+struct no_such_object {};
+// a dangling object id is a malformed history (e.g. produced by delta debugging), not an exception of the library
+static Obj* get_obj(const std::string& id) {
+  auto it = objs.find(atoi(id.c_str()));
+  if (it == objs.end() || !it->second) throw no_such_object();
+  return it->second.get();
+}
 
 template<typename Tr> static std::unique_ptr<Obj> make_upd(const std::string& fam, int lgk, float p, uint64_t seed, int nv) {
   std::unique_ptr<Fam<Tr>> o(new Fam<Tr>); o->fam = fam; o->seed = seed; o->lgk = lgk; o->nv = nv;
@@ -624,19 +640,19 @@ static std::string step(const std::vector<std::string>& w) {
     else return "bad-op";
     std::string c = o->content(); objs[id] = std::move(o); return c;
   }
-  if (op == "upd") { Obj& o = *objs.at(atoi(w[1].c_str())); o.update(w, 2); return o.content(); }
+  if (op == "upd") { Obj& o = *get_obj(w[1]); o.update(w, 2); return o.content(); }
   if (op == "compact") {
-    auto n = objs.at(atoi(w[1].c_str()))->compact(w[3] == "1"); std::string c = n->content(); objs[atoi(w[2].c_str())] = std::move(n); return c;
+    auto n = get_obj(w[1])->compact(w[3] == "1"); std::string c = n->content(); objs[atoi(w[2].c_str())] = std::move(n); return c;
   }
   if (op == "union" || op == "inter" || op == "anotb") {
     int dst = atoi(w[1].c_str()); size_t i = 2; int lgk = 0;
     if (op == "union") lgk = atoi(w[i++].c_str());
     bool ord = w.at(i++) == "1";
-    std::vector<const Obj*> ops; for (; i < w.size(); ++i) ops.push_back(objs.at(atoi(w[i].c_str())).get());
+    std::vector<const Obj*> ops; for (; i < w.size(); ++i) ops.push_back(get_obj(w[i]));
     auto n = ops.at(0)->setop(op, lgk, ord, ops); std::string c = n->content(); objs[dst] = std::move(n); return c;
   }
   if (op == "fromtheta") {
-    auto src = dynamic_cast<Fam<ThetaTr>*>(objs.at(atoi(w[1].c_str())).get());
+    auto src = dynamic_cast<Fam<ThetaTr>*>(get_obj(w[1]));
     if (!src) return "bad-op";
     int dst = atoi(w[2].c_str()); const std::string& fam = w[3]; bool ord = w[4] == "1";
     std::unique_ptr<compact_theta_sketch> tc(src->cmp ? new compact_theta_sketch(*src->cmp) : new compact_theta_sketch(src->upd->compact(false)));
@@ -647,9 +663,9 @@ static std::string step(const std::vector<std::string>& w) {
     n->fam = fam; n->seed = src->seed; n->lgk = src->lgk;
     std::string c = n->content(); objs[dst] = std::move(n); return c;
   }
-  if (op == "ser") return objs.at(atoi(w[1].c_str()))->ser(w[2], w.size() > 3 ? objs.at(atoi(w[3].c_str())).get() : nullptr);
-  if (op == "trunc") return objs.at(atoi(w[1].c_str()))->trunc(w[2]);
-  if (op == "corrupt") return objs.at(atoi(w[1].c_str()))->corrupt(w[2]);
+  if (op == "ser") return get_obj(w[1])->ser(w[2], w.size() > 3 ? get_obj(w[3]) : nullptr);
+  if (op == "trunc") return get_obj(w[1])->trunc(w[2]);
+  if (op == "corrupt") return get_obj(w[1])->corrupt(w[2]);
   if (op == "deser") {
     const std::string& fam = w[1]; uint64_t seed = u64_of(w[3]); bytes_t img = vh::bytes_of_hex(w[4]); int nv = w.size() > 5 ? atoi(w[5].c_str()) : 1;
     if (fam == "theta") return deser_all<ThetaTr>(w[2], seed, img, nv);
@@ -700,4 +716,8 @@ static std::string step(const std::vector<std::string>& w) {
   return "bad-op";
 }
 
-int main() { return vh::run_loop(step); }
+static std::string safe_step(const std::vector<std::string>& w) {
+  try { return step(w); } catch (const no_such_object&) { return "no-such-object"; }
+}
+
+int main() { return vh::run_loop(safe_step); }
